@@ -185,8 +185,14 @@ func runC17(c *Ctx) {
 					}
 					continue
 				}
-				o := asm.GenOpts{Cfg: cfg, MaxLines: 1 + r.Intn(min(cfg.Length, 8)), UseLabels: true, UseEqus: r.Bool(), UseFor: r.Chance(1, 5), MaxForExp: 5, UseConsts: r.Bool()}
+				o := asm.GenOpts{Cfg: cfg, MaxLines: 1 + r.Intn(min(cfg.Length, 8)), UseLabels: true, UseEqus: r.Bool(), UseFor: r.Chance(1, 5), MaxForExp: 5, UseConsts: r.Bool(), Meta: r.Chance(1, 3)}
 				p = asm.GenProg(r, o)
+				if r.Chance(1, 3) {
+					// a true ;assert over a chain of EQUs (an author's sanity check of the constants)
+					va, vb := 1+r.Intn(5), 2+r.Intn(3)
+					p.Items = append([]asm.Item{&asm.Equ{Name: "zqa", E: asm.Lit{V: va}}, &asm.Equ{Name: "zqb", E: asm.Bin{Op: '*', L: asm.Ref{Name: "zqa"}, R: asm.Lit{V: vb}}}}, p.Items...)
+					p.Asserts = append(p.Asserts, asm.Bin{Op: '-', L: asm.Ref{Name: "zqb"}, R: asm.Lit{V: va*vb - 1}})
+				}
 				mn, err := p.Meaning()
 				if err != nil || len(mn.Code) == 0 || len(mn.Code) > cfg.Length {
 					continue
